@@ -95,6 +95,13 @@ func maxUint64(a, b uint64) uint64 {
 	return b
 }
 
+func boolToUint64(b bool) uint64 {
+	if b {
+		return 1
+	}
+	return 0
+}
+
 func minUint64(a, b uint64) uint64 {
 	if a < b {
 		return a
